@@ -27,10 +27,10 @@
 //   - Expressions (-S, --set-identifier) are drawn from a small grammar of the
 //     documented language (doc/book/expressions.qmd + gval): numeric and string
 //     constants, + - * on integer annotations, > < >= <= == != against an integer
-//     constant, len(sequence),
-//     len(map annotation), sequence.Id(), annotations.key and annotations["key"],
-//     printf with %s and %v, subspc, ifelse, contains, gcskew (only when every
-//     record has a g or a c).  They only refer to annotations that every record of
+//     constant, len(sequence), len(map annotation), sequence.Id(), annotations.key
+//     and annotations["key"], printf with %s and %v, subspc, ifelse, contains,
+//     gcskew (only when every record has a g or a c; composition() is left out:
+//     the book names its fifth key "others", the code "o").  They only refer to annotations that every record of
 //     the case still carries when the expression is evaluated (an expression that
 //     cannot be evaluated makes the tool discard the record with a warning: not
 //     decided by the statement), never to a key set by another -S of the same
@@ -938,15 +938,6 @@ var aExtraKeys = []string{"x1", "x2", "extra", "obiclean_status", "obi-tag.v2", 
 var aFreshKeys = []string{"n_a", "n_b", "renamed", "old_count", "len2"}
 var aSetKeys = []string{"x", "y", "z", "new_tag", "val", "k9"}
 var aMapKeys = []string{"a", "b", "k", "s1", "s2", "x-1"}
-
-func aPoolType(k string) string {
-	for _, p := range aPool {
-		if p.Key == k {
-			return p.Type
-		}
-	}
-	return ""
-}
 
 func aWord(t *rapid.T, label, alphabet string, lo, hi int) string {
 	n := rapid.IntRange(lo, hi).Draw(t, label+"_n")
